@@ -47,6 +47,14 @@ Theorem C20_refuted_close_no_drain : differ_handlers w_d_bodies w_d_acts 200 /\
   snd (glib_obs w_d_bodies w_d_acts 200) = [EHandler 0 0 0; EHandler 1 1 0; EMark 1; EMark 9].
 Proof. exact refuted_close_no_drain. Qed.
 
+(* F9(e)  key glib-mark-after-handlers: observable only once the level stack is empty (see proofs/C20Proofs.v) *)
+Theorem C20_refuted_mark_after_handlers :
+  glib_obs w_e_bodies w_e_acts 200 = ([ONormal; OBlocked], [EHandler 2 1 0; EHandler 0 0 0; EHandler 1 0 0]) /\
+  glib_obs_gen true w_e_bodies w_e_acts 200 =
+    ([ONormal; ONormal; OThrow XError], [EHandler 2 1 0; EHandler 0 0 0; EHandler 1 0 0; EMark 1]) /\
+  differ_handlers w_e_bodies w_e_acts 200.
+Proof. exact refuted_mark_after_handlers. Qed.
+
 (* further classes found while building the check (keys: glib-urgent-not-overtaking, glib-exit-not-unwinding,
    glib-handler-after-force-quit, glib-after-force-quit, glib-process-one-batch, glib-wait-not-stopped,
    glib-wait-finishes-batch, glib-handlers-bound-at-enqueue, glib-close-last-level) *)
@@ -84,4 +92,5 @@ Print Assumptions C20_refuted_raise_skips_handlers.
 Print Assumptions C20_refuted_exception_not_overtaking.
 Print Assumptions C20_refuted_exit_batch_continues.
 Print Assumptions C20_refuted_close_no_drain.
+Print Assumptions C20_refuted_mark_after_handlers.
 Print Assumptions C20_refuted_more.
